@@ -371,6 +371,10 @@ func sortf(t *rt.Thread, c *rt.GoCont) (next rt.Cont, resErr error) {
 		return nil, err
 	}
 	tblVal := c.Arg(0)
+	if c.NArgs() >= 2 && !c.Arg(1).IsNil() && c.Arg(1).Type() != rt.FunctionType {
+		// checked before anything else, so that it does not depend on the table
+		return nil, errors.New("#2 must be a function")
+	}
 	get := func(i int) rt.Value {
 		x, err := rt.Index(t, tblVal, rt.IntValue(int64(i+1)))
 		if err != nil {
